@@ -560,8 +560,8 @@ def main(argv):
         rs = np.random.RandomState(seed() * 1000 + 12 + mi)
         base = ray_items(tier, mi, me, rs) + point_items(tier, mi, me, rs)
         items = [dict(it, pl=0) for it in base]
-        # far placements: a sixth of the quick sample each / a seeded tenth of the thorough product each
-        pick = rs.randint(0, 10 if big else 6, size=len(base))
+        # far placements: a sixth of the quick sample each / a seeded sixteenth of the thorough product each
+        pick = rs.randint(0, 16 if big else 6, size=len(base))
         for pl in range(1, len(PLACEMENTS)):
             items += [dict(it, pl=pl) for it, r in zip(base, pick) if r == pl - 1]
         blocks.append((me["name"], items))
@@ -682,7 +682,7 @@ def main(argv):
             "thorough: per mesh every ray (origin, direction) with origin in {-2..5}^3, the half-odd points "
             "{-3/2..9/2}^3 or the quarter points {-7/4, -3/4, .. 21/4}^3 and direction in {-2..2}^3 \\ 0, and "
             "every quarter-lattice point of {-7/4..21/4}^3 "
-            "with at least two odd-quarter coordinates; a seeded tenth of these rays and points again at each of "
+            "with at least two odd-quarter coordinates; a seeded sixteenth of these rays and points again at each of "
             "the two far placements" if big else
             "quick: per mesh a seeded sample of rays (origins {-2..5}^3, half-odd {-3/2..9/2}^3 and odd-quarter "
             "{-7/4..21/4}^3, directions {-2..2}^3 \\ 0): ~1800 random (origin, direction) pairs aimed through the "
